@@ -26,4 +26,5 @@
 //@@ include textdiff.rs
 //@@ props ^DiffableStrRef for T::as_diffable_str$|^lemma_entry_pre_bytes$|^lemma_tokpart_ : C04 C02
 //@@ props ^TextDiffConfig::|^IdentifyDistinct::|^Index for OffsetLookup|^Deadline::|^duration_to_deadline$ : C02 C04 C17
+//@@ props ^myers::|^lcs::|^patience::|^diff$|^diff_deadline$|^diff_slices$|^diff_slices_deadline$|^capture_diff : C04 C17
 fn main() {}
